@@ -188,7 +188,7 @@ def grid_cases(tier):
                 yield [s, *rest]
 
 
-ODD = [-1, 256, 2 ** 70, -2 ** 70, 1.0, 144.0, 60.0, 0.5, float('nan'), 'a', '1',
+ODD = [-1, -112, -16, -8, -256, 256, 400, 2 ** 70, -2 ** 70, 1.0, 144.0, 60.0, 0.5, float('nan'), 'a', '1',
        None, [1], (1,), b'\x01', True, False, fractions.Fraction(60),
        fractions.Fraction(1, 2), decimal.Decimal(60), 1j, 248.0, 240.0, 247.0]
 
@@ -276,6 +276,24 @@ def hex_cases(ctx):
     return n
 
 
+def perturbed_sample(ctx):
+    """Repeat a sample of the grid after other (often failing) mido calls:
+    state leaked by them into the decoder would show."""
+    from .. import gen
+    sample = [[0x90, 200, 0], [0x90, 1, 0x80], [0xE0, 0x90, 0x90], [0xE0, 1], [0xE0, 1, 2, 3], [0x90, 60.0, 64],
+              [0x90, -1, 0], [0x90, 256, 0], [0xF0, 200, 0xF7], [0xF0, 1, 2], [0xF0, 1, 0xF7, 0x90, 1, 2],
+              [0xF0, 0xF7, 0], [0xF4], [0x00], [-1], [-112, 1, 2], [0xC0, 0xFF], [0xF1, 0x80], [0xF2, 1, 0x80],
+              [0xF3, 128], [0x90, 1, 2], [0xF0, 1, 0xF7], [0xF8], [0xF8, 0], [0xB0, 1, 2, 3], [0xD0],
+              [0x90, None, 1], [0x90, '1', 1]]
+    n = 0
+    for name, thunk in gen.perturbations():
+        gen.run_quietly(thunk)
+        for seq in sample:
+            check_seq(ctx, seq, list)
+            n += 1
+    return n
+
+
 def run(ctx):
     n = 0
     if ctx.shard == 0:
@@ -310,6 +328,11 @@ def run(ctx):
         h = history_cases(ctx)
         ctx.nontrivial(None, h)
         ctx.extra('odd_item_and_history_cases', h)
+        n += h
+    if ctx.shard == 3 % ctx.nshards:
+        h = perturbed_sample(ctx)
+        ctx.nontrivial(None, h)
+        ctx.extra('cases_repeated_after_perturbations', h)
         n += h
     if ctx.shard == 2 % ctx.nshards:
         h = hex_cases(ctx)
